@@ -115,6 +115,30 @@ pub fn project_of(c: &Case) -> (Project, u64) {
             }
             Project::single(&t)
         }
+        Shape::ImportGraph if e.chance(1, 4) => {
+            // a ring of imports that does not pass through the entry file, every path in one of its spellings
+            let k = 2 + e.below(2);
+            let dirs = ["lib/gfx", "lib/snd", "lib/gfx"];
+            let ring: Vec<String> = (0..k).map(|i| format!("{}/r{}.asm", dirs[i], i)).collect();
+            let spell = |e: &mut Ent, from_dir: Option<&str>, to: &str| -> String {
+                let (tdir, tfile) = to.rsplit_once('/').unwrap();
+                match from_dir {
+                    None => if e.chance(1, 2) { format!("./{}", to) } else { to.to_string() },
+                    Some(d) if d == tdir && e.chance(1, 2) => tfile.to_string(),
+                    Some(_) => format!("../{}/{}", tdir.rsplit('/').next().unwrap(), tfile),
+                }
+            };
+            let mut files = BTreeMap::new();
+            let first = spell(&mut e, None, &ring[0]);
+            files.insert("main.asm".to_string(), format!("nop\n.import * from \"{}\"\n", first));
+            for i in 0..k {
+                let next = &ring[(i + 1) % k];
+                // (the last one closes the ring, or not)
+                let imp = if i + 1 == k && e.chance(1, 4) { String::new() } else { format!(".import * from \"{}\"\n", spell(&mut e, ring[i].rsplit_once('/').map(|x| x.0), next)) };
+                files.insert(ring[i].clone(), format!("ring{}: rts\n{}", i, imp));
+            }
+            Project { files, entry: "main.asm".into() }
+        }
         Shape::ImportGraph => {
             let nfiles = 1 + e.below(4);
             let nfiles = nfiles + e.below(2);
